@@ -4,7 +4,8 @@
 (* for the seven token kinds of Literals.tla Part 2 and all byte strings   *)
 (* of length <= MaxLen over Alphabet (class representatives: letter, hex   *)
 (* letter, digits, $ - . _, space, quote, backslash, 0x01, 0x7F, 0x80,     *)
-(* 0xFF, NUL) and                                                          *)
+(* 0xFF, NUL) plus ExtraStrings (escape-like sequences such as \5C, \5z,   *)
+(* \\, a\41b; numeric and leading-digit names; a 20-digit name) and        *)
 (*  (S) checks the coder under test against LLVM's lexer rules             *)
 (*      (Literals!DecodeToken):                                            *)
 (*        RoundTrip    Decode(kind, Encode(kind, s)) = name s              *)
@@ -37,10 +38,31 @@ EXTENDS Literals, Json
 
 CONSTANTS Alphabet,        \* byte values
           MaxLen,          \* longest string
+          ExtraStrings,    \* further byte strings (escape-like sequences, numeric names)
           PairLen,         \* longest string in the injectivity pairs
           Kinds,           \* token kinds enumerated
           AsImplemented,   \* TRUE: internal/enc as written
           EmitFile         \* "" or "stdout"
+
+\* the strings ExtraStrings is bound to in the cfg files:
+\*   \5C \5z \4_ \\5C a\41b \zz \\\5z x\5zz 42 007 1a 2b -5 18446744073709551616 a.b  a b"c
+DefaultExtras == {
+    <<92, 53, 67>>,
+    <<92, 53, 122>>,
+    <<92, 52, 95>>,
+    <<92, 92, 53, 67>>,
+    <<97, 92, 52, 49, 98>>,
+    <<92, 122, 122>>,
+    <<92, 92, 92, 53, 122>>,
+    <<120, 92, 53, 122, 122>>,
+    <<52, 50>>,
+    <<48, 48, 55>>,
+    <<49, 97>>,
+    <<50, 98>>,
+    <<45, 53>>,
+    <<49, 56, 52, 52, 54, 55, 52, 52, 48, 55, 51, 55, 48, 57, 53, 53, 49, 54, 49, 54>>,
+    <<97, 46, 98>>,
+    <<97, 32, 98, 34, 99>>}
 
 VARIABLES kind, s, t, stage
 vars == <<kind, s, t, stage>>
@@ -49,7 +71,8 @@ RECURSIVE StringsOfLen(_)
 StringsOfLen(n) == IF n = 0 THEN {<<>>} ELSE {<<c>> \o x : c \in Alphabet, x \in StringsOfLen(n - 1)}
 StringsUpTo(n) == UNION {StringsOfLen(k) : k \in 0..n}
 \* the empty name is enumerated only with AsImplemented (it is not permitted; the code must still not crash)
-Domain(k) == {x \in StringsUpTo(MaxLen) : Permitted(k, x) \/ (AsImplemented /\ k = "mdname" /\ x = <<>>)}
+Domain(k) == {x \in StringsUpTo(MaxLen) \cup ExtraStrings :
+                Permitted(k, x) \/ (AsImplemented /\ k = "mdname" /\ x = <<>>)}
 PairDomain(k) == {x \in StringsUpTo(PairLen) : Permitted(k, x)}
 
 Enc(k, x) == IF AsImplemented THEN CodeEncode(k, x) ELSE [ok |-> TRUE, tok |-> RefEncode(k, x)]
